@@ -1,11 +1,15 @@
 ------------------------------ MODULE MC_Signer ------------------------------
-EXTENDS Signer, Json
+EXTENDS Signer, Json, IOUtils
 
 (* invariants with the listed known deviation excused (KNOWN_FINDINGS.jsonl):                        *)
 (*  C20-epoch-turn-during-registration-cycle : signatures for an epoch the signer entered with the    *)
 (*  epoch data of the previous one (the chain epoch turned between the epoch settings and the second *)
 (*  read of the time point, and nothing had to be registered)                                        *)
 CONSTANT ExcuseTurn
+(* the model describes the current code as long as the finding is listed as known: checks/c20.py sets C20_RECHECK=1 *)
+(* once it is no longer listed (fix applied), which also withdraws the excuse                                       *)
+RecheckFromEnv == "C20_RECHECK" \in DOMAIN IOEnv /\ IOEnv.C20_RECHECK = "1"
+ExcuseFromEnv  == ~RecheckFromEnv
 Lag(p) == ExcuseTurn /\ EE(p.entity) \in lagged
 OneSignaturePerBeaconK ==
     \A p, q \in published : p.entity = q.entity => (SigValue(p) = SigValue(q) \/ Lag(p))
